@@ -19,8 +19,11 @@ Theorem C17_never_idle : forall grp evs, let s := state_after grp evs in
   gens s <> [] \/ (rejoin_needed s = false /\ hb_running s = true) \/ timers s <> [].
 Proof. exact never_idle_benign. Qed.
 Print Assumptions C17_never_idle.
-(* the same with the weaker hypothesis "no such exception has actually escaped" (such an event addressed to no pending request
-   is a no-op): [escaped] is the model's ghost flag, set by gen_fail for a non-Kafka class only *)
+(* the same with the weaker hypothesis [escaped s = false]: the model's ghost flag says "the last _join_and_sync ended with a non-Kafka
+   exception that was only logged and nothing has been scheduled or started since" - set by gen_fail for a non-Kafka class, CLEARED
+   whenever a join_and_sync call is armed or a new generator starts.  So the theorem speaks again as soon as anything (a consumer
+   error, a heartbeat failure) kicks the member after an escape: it is idle only between an escape and the next external kick
+   (Example never_idle_speaks_again_after_escape). *)
 Theorem C17_never_idle_flag : forall grp evs, let s := state_after grp evs in
   escaped s = false -> start_d s <> None -> stopping s = false -> stop_requested s = false ->
   gens s <> [] \/ (rejoin_needed s = false /\ hb_running s = true) \/ timers s <> [].
@@ -175,6 +178,13 @@ Proof. exact leave_reply_surfaces. Qed.
 Print Assumptions C17_fatal_surfaces_after_leave.
 
 (* ---- non-vacuity: the hypotheses are met by reachable, non-trivial states ---- *)
+Example never_idle_speaks_again_after_escape :   (* lookup raises ValueError: idle (flag set); a consumer's commit error re-arms the rejoin: flag clear *)
+  let evs := [EStart; ELookup 0 LBroker; EMeta 1 ROk; EJoin 2 (JOk 5 7 0); ESync 3 (SOk [(0, 1); (0, 2)]); ECFail 0 KRebalance; EFire 0;
+              ELookup 4 (LFail KNonKafka)] in
+  escaped (state_after true evs) = true /\ timers (state_after true evs) = [] /\ gens (state_after true evs) = [] /\
+  escaped (state_after true (evs ++ [ECFail 1 KIllGen])) = false /\ timers (state_after true (evs ++ [ECFail 1 KIllGen])) = [(1, TRejoin)] /\
+  benign (evs ++ [ECFail 1 KIllGen]) = false.
+Proof. vm_compute. auto 10. Qed.
 Example settles_nonvacuous :             (* evicted member with one consumer shutting down... here: after a rebalance, a full fair run of 7 owed events *)
   let evs := [EStart; ELookup 0 LBroker; EMeta 1 ROk; EJoin 2 (JOk 5 7 0); ESync 3 (SOk [(0, 1)]); ETick; EHbReply 4 (RFail KRebalance)] in
   let es := [EFire 0; ELookup 5 LBroker; EMeta 6 ROk; ECShut 0 true; EJoin 7 (JOk 6 7 1); EParts 8 POk; ESync 9 (SOk [(0, 1); (0, 2)])] in
